@@ -171,6 +171,17 @@ def c02_bytes_stable (o : StepObs) : Bool :=
       | some s' => s.versions.toList.all (fun (k, b) => s'.versions[k]? == none || s'.versions[k]? == some b)
       | none => true
 
+/-- C18: the bytes put under (name, version) are what get-version keeps returning: every version
+of the pre-state is still there with exactly its bytes, unless this very call deleted it -/
+def c18_bytes_kept (o : StepObs) : Bool :=
+  o.pre.secrets.toList.all fun (n, s) =>
+    s.versions.toList.all fun (k, b) =>
+      let deleted := match o.op with
+        | .delete m => m == n && o.res == .done
+        | .deleteVersion m v => m == n && v == k && o.res == .done
+        | _ => false
+      deleted || (match o.post.secrets[n]? with | some s' => s'.versions[k]? == some b | none => false)
+
 def c02_active (o : StepObs) : Bool :=
   match o.op with
   | .activate n v =>
@@ -308,7 +319,8 @@ def clauses : List (String × String × (StepObs → Bool)) :=
     ("C06", "before_effect", c06_before_effect),
     ("C06", "fail_closed", c06_fail_closed),
     ("C06", "unchanged_silent", c06_unchanged_silent),
-    ("C09", "cond", c09_cond) ]
+    ("C09", "cond", c09_cond),
+    ("C18", "acknowledged_bytes_kept", c18_bytes_kept) ]
 
 def corrClauses : List (String × (StepObs → Bool)) :=
   [ ("res", corr_res), ("state", corr_state), ("entries", corr_entries) ]
